@@ -1974,6 +1974,11 @@ def run(tier):
     chk.adopt('C04.R12', 'no signal is sent to ddSMT\'s own process or '
               'process group (shared with C06.R4): the run would end '
               'without completing and without a meaningful status', sub4)
+    from .. import depthrec
+    chk.guard(depthrec.report, chk, prog, 'C04.R18',
+              'no function of the tree core that the main process runs on the whole input recurses over the nesting depth (directly, through helpers, generators, tuple comparison, deepcopy or the generic pickler)',
+              None,
+              'RecursionError in the main process: a traceback and exit status 1 instead of a completed run')
     extra = None
     if tier == 'thorough':
         from .. import selftest
